@@ -59,6 +59,7 @@ func run(c *props.Ctx) {
 	rotate, qo := k.quaternionLaws(vo)
 	lap("quaternion")
 	k.rotationToLaw(vo, qo, rotate)
+	k.fromThetaLaw(vo, qo)
 	lap("rotationTo")
 	transform, _ := k.trsLaws(vo, qo, rotate)
 	lap("trs")
@@ -94,6 +95,7 @@ const (
 	ctlQuat = "math/quaternion/zz_verif_control_c17.go"
 	ctlGeom = "math/geometry/zz_verif_control_c17.go"
 	ctlMesh = "modeling/zz_verif_control_c17.go"
+	ctlTrs  = "math/trs/zz_verif_control_c17.go"
 )
 
 func controls() map[string]string {
@@ -177,6 +179,58 @@ func (aabb AABB) verifControlAxisGood(v vector3.Float64) vector3.Float64 {
 	z := math.Min(math.Max(v.Z(), min.Z()), max.Z())
 	y := math.Max(math.Min(v.Y(), max.Y()), min.Y())
 	return vector3.New(clamp(v.X(), min.X(), max.X()), y, z)
+}
+`,
+		ctlTrs: `package trs
+
+import (
+	"runtime"
+	"sync"
+
+	"github.com/EliCDavis/vector/vector3"
+)
+
+// must fire (SHAPE-2): equal blocks, the remainder len(in) % workers is never written
+func (trs TRS) verifControlSpawnBad(in []vector3.Float64) []vector3.Float64 {
+	workers := runtime.GOMAXPROCS(0)
+	out := make([]vector3.Float64, len(in))
+	block := len(in) / workers
+	var wg sync.WaitGroup
+	wg.Add(workers)
+	for w := 0; w < workers; w++ {
+		go func(start, end int) {
+			defer wg.Done()
+			for i := start; i < end; i++ {
+				out[i] = trs.Transform(in[i])
+			}
+		}(w*block, (w+1)*block)
+	}
+	wg.Wait()
+	return out
+}
+
+// must stay silent: the last worker takes the remainder
+func (trs TRS) verifControlSpawnGood(in []vector3.Float64) []vector3.Float64 {
+	workers := runtime.GOMAXPROCS(0)
+	out := make([]vector3.Float64, len(in))
+	block := len(in) / workers
+	var wg sync.WaitGroup
+	wg.Add(workers)
+	for w := 0; w < workers; w++ {
+		lo := w * block
+		hi := lo + block
+		if w == workers-1 {
+			hi = len(in)
+		}
+		go func(start, end int) {
+			defer wg.Done()
+			for i := start; i < end; i++ {
+				out[i] = trs.Transform(in[i])
+			}
+		}(lo, hi)
+	}
+	wg.Wait()
+	return out
 }
 `,
 		ctlMesh: `package modeling
@@ -315,6 +369,26 @@ func (k *checker) runControls(rotate *ssa.Function) {
 			v = ob.Violation
 		}
 		k.c.R.Control("AXIS-2", "control:AABB.verifControlAxisGood", ctlGeom, v, ob.Holds, "accepted idiom must stay silent")
+	}
+	if has(ctlTrs) && k.shapeEnv != nil {
+		var base *shapeCase
+		for i := range k.shapeCases {
+			if k.shapeCases[i].name == "TRS.TransformArray" {
+				base = &k.shapeCases[i]
+			}
+		}
+		if base != nil {
+			for _, c := range []struct {
+				name string
+				bad  bool
+			}{{"TRS.verifControlSpawnBad", true}, {"TRS.verifControlSpawnGood", false}} {
+				if fn := k.ctlFn("math/trs", c.name); fn != nil {
+					cs := *base
+					cs.name = c.name
+					k.control("SHAPE-2", ctlTrs, c.name, c.bad, func() { k.shapeOne(cs, fn) })
+				}
+			}
+		}
 	}
 	if has(ctlMesh) && k.shapeEnv != nil && k.vo != nil {
 		vo := k.vo
